@@ -22,7 +22,7 @@ def main():
     try:
         demo = os.path.join(src, "demo.sh")
         env = dict(os.environ, WT=d)
-        r0 = sh(["sh", demo, d], env=env, timeout=600)
+        r0 = sh(["bash", demo, d], env=env, timeout=600)
         meta["demo_without_patch_exit"] = r0.returncode
         ap = sh(["git", "-C", d, "apply", os.path.join(os.path.abspath(src), "patch.diff")])
         meta["patch_applies"] = ap.returncode == 0
@@ -32,7 +32,7 @@ def main():
             b = sh([os.path.join(VERIF, "tools", "baseline_off.sh"), d], timeout=1800)
             meta["existing_tests_with_patch"] = b.stdout.strip().splitlines()[-1] if b.stdout.strip() else b.stderr[-200:]
             ok &= b.returncode == 0
-            r1 = sh(["sh", demo, d], env=env, timeout=600)
+            r1 = sh(["bash", demo, d], env=env, timeout=600)
             meta["demo_with_patch_exit"] = r1.returncode
             meta["demo_with_patch_tail"] = (r1.stdout + r1.stderr)[-400:]
             ok &= (r0.returncode == 0 and r1.returncode != 0)
